@@ -5,7 +5,7 @@
 (* operators of Spil.tla; a line is accepted when every clause holds.      *)
 (* Verdicts are total: a failing line never stops the run, the failing     *)
 (* clause names are accumulated and printed by the POSTCONDITION.          *)
-EXTENDS Universe
+EXTENDS Store
 Tr == ndJsonDeserialize(IOEnv.TRACE_FILE)
 VARIABLES l, fails
 Cap == 400
@@ -169,6 +169,38 @@ FromPathClauses(e) == LET r == FromPath(e.call.cfg, e.obs.lexed)  o == e.obs IN
      C("fields", o.raised # "" \/ r.amb \/ o.fields = r.sid.fields),
      C("string", o.raised # "" \/ r.amb \/ o.string = r.sid.string) >>
 
+\* ---- C11 / C12 / C09: every Finder on the same materialised universe, clean and with junk
+FinderExpect(name, j, n, L, search) ==
+  IF name = "list" THEN FindList(L, search)
+  ELSE IF name = "paths_local" THEN FindPaths("local", UIdx[j][n]["local"], search)
+  ELSE IF name = "paths_server" THEN FindPaths("server", UIdx[j][n]["server"], search)
+  ELSE FindAll(UIdx[j][n], search)
+AllPathBacked(search) == LET us == Unfold(search).res IN
+  us # {} /\ \A u \in us : ~IsConstType(u.type) /\ \A c \in Cfgs : HasPath(c, u.type)
+FinderOk(f, x) ==
+  /\ (~x.pre \/ f.err = (IF x.err = "spil" THEN "SpilException" ELSE ""))
+  /\ (~x.pre \/ x.err # "" \/ f.err # "" \/ ToSet(f.res) = x.res)
+  /\ Cardinality(ToSet(f.res)) = Len(f.res)
+C12Ok(f) == f.err # "" \/
+  /\ f.sid_same
+  /\ f.exists.raised = "" /\ f.exists.value = (f.res # <<>>)
+  /\ f.find_one.raised = "" /\ (IF f.res = <<>> THEN f.find_one.value = <<>> ELSE f.find_one.value = f.res[1])
+  /\ f.find_one_sid.raised = "" /\ (IF f.res = <<>> THEN f.find_one_sid.string = "" ELSE f.find_one_sid.string = JoinStr(f.res[1], "/"))
+FindersClauses(e) == LET c == e.call  R == e.obs.runs IN
+  FlattenSeqs([r \in DOMAIN R |->
+     << C("list_is_tree_" \o (IF R[r].junk THEN "junk" ELSE "clean"), ToSet(R[r].L) = EntriesOf(UIdx[R[r].junk][c.univ][DefaultCfg])) >>
+     \o [k \in DOMAIN R[r].finders |->
+           C(R[r].finders[k].name \o (IF R[r].junk THEN "_junk" ELSE ""),
+             FinderOk(R[r].finders[k], FinderExpect(R[r].finders[k].name, R[r].junk, c.univ, R[r].L, c.search)))]
+     \o [k \in DOMAIN R[r].finders |-> C("c12_" \o R[r].finders[k].name, C12Ok(R[r].finders[k]))]])
+  \o << C("noraise", \A r \in DOMAIN R : \A k \in DOMAIN R[r].finders : R[r].finders[k].err \in {"", "SpilException"}),
+        C("junk_changes_nothing", \A k \in DOMAIN R[1].finders : ToSet(R[1].finders[k].res) = ToSet(R[2].finders[k].res) /\ R[1].finders[k].err = R[2].finders[k].err),
+        C("finders_agree", ~AllPathBacked(c.search) \/ ~TypeComplete(c.search) \/ ~FindList(R[1].L, c.search).pre \/
+                           \A k \in DOMAIN R[1].finders : R[1].finders[k].err # "" \/ ToSet(R[1].finders[k].res) = ToSet(R[1].finders[1].res)),
+        \* searches that lost a type to the "first type" guess: the type-blind list search answers for the lost types too
+        C("finders_agree_despite_type_guess", ~AllPathBacked(c.search) \/ TypeComplete(c.search) \/ ~FindList(R[1].L, c.search).pre \/
+                           \A k \in DOMAIN R[1].finders : R[1].finders[k].err # "" \/ ToSet(R[1].finders[k].res) = ToSet(R[1].finders[1].res)) >>
+
 Clauses(e) ==
   IF "raised" \in DOMAIN e.obs /\ StrStarts(e.obs.raised, "HARNESS") THEN << C("harness", FALSE) >>
   ELSE CASE e.call.op = "sid"     -> SidClauses(e)
@@ -183,6 +215,7 @@ Clauses(e) ==
          [] e.call.op = "algebra" -> AlgebraClauses(e)
          [] e.call.op = "extrapolate" -> ExtrapolateClauses(e)
          [] e.call.op = "topath"  -> ToPathClauses(e)
+         [] e.call.op = "finders" -> FindersClauses(e)
          [] e.call.op = "frompath" -> FromPathClauses(e)
          [] OTHER -> << C("unknown_op", FALSE) >>
 
@@ -207,6 +240,10 @@ Tag(e) ==
         "topath:" \o (IF x.type = "" THEN "untyped" ELSE IF \E c \in PathConfigs : HasPath(c, x.type) THEN x.type ELSE "nopath")
   ELSE IF e.call.op = "frompath" THEN LET r == FromPath(e.call.cfg, e.obs.lexed) IN
         "frompath:" \o e.call.cfg \o ":" \o (IF r.amb THEN "ambiguous" ELSE IF r.sid.type = "" THEN "untyped" ELSE "typed")
+  ELSE IF e.call.op = "finders" THEN LET x == FindAll(UIdx[FALSE][e.call.univ], e.call.search) IN
+        "finders:" \o (IF AllPathBacked(e.call.search) THEN "pathbacked:" ELSE "mixed:")
+                   \o (IF x.err # "" THEN "error" ELSE IF ~x.pre THEN "gt-precondition-false"
+                       ELSE (IF x.sorted THEN "gt:" ELSE "star:") \o (IF x.res = {} THEN "nothing" ELSE "found"))
   ELSE e.call.op
 Bump(cov, t) == [x \in DOMAIN cov \cup {t} |-> IF x = t THEN (IF t \in DOMAIN cov THEN cov[t] + 1 ELSE 1) ELSE cov[x]]
 Failed(e) == SelectSeq(Clauses(e), LAMBDA c : ~c[2])
